@@ -103,17 +103,27 @@ class SymFloat(Sym):
     quot : (a, k) the correctly rounded quotient a / k of an int-valued sym `a` and positive int k
     ival : an int-valued Sym/int whose value the float equals exactly (|v| < 2**53 established)
     dec  : (neg, digits, e10) the double nearest to +-d1.d2...dn x 10^e10 (shortest-repr digits: d1 != 0, dn != 0)
+    real : z3 Real term = the exact value of the (finite) double. Results of float operations are fresh Real variables
+           constrained by the IEEE-754 round-to-nearest error enclosure (ops.rn): |z - exact| <= 2^-53 |exact| + 2^-120,
+           integers below 2^53 are fixed points. A sound over-approximation of binary64 arithmetic in linear real/integer
+           arithmetic: everything proved holds for the real doubles; a counterexample must replay natively.
+    ideal: only with `real`: (num, den, eps, exact) - forward error analysis shadow: num (Int term / int) over den
+           (positive int) is the value the computation would have in exact arithmetic, |real - num/den| <= eps (Fraction,
+           derived from static magnitude bounds), and `exact` (Bool term / bool) implies real == num/den. When present the
+           double is a fresh Real variable constrained by exactly these two facts (no chain of earlier roundings).
     """
-    __slots__ = ("t", "quot", "ival", "dec")
+    __slots__ = ("t", "quot", "ival", "dec", "real", "ideal")
 
-    def __init__(self, t=None, quot=None, ival=None, dec=None):
+    def __init__(self, t=None, quot=None, ival=None, dec=None, real=None, ideal=None):
         self.t = t
         self.quot = quot
         self.ival = ival
         self.dec = dec
+        self.real = real
+        self.ideal = ideal
 
     def __repr__(self):
-        return f"SymFloat(t={self.t}, quot={self.quot}, ival={self.ival}, dec={self.dec})"
+        return f"SymFloat(t={self.t}, quot={self.quot}, ival={self.ival}, dec={self.dec}, real={self.real})"
 
 
 class SymStr(Sym):
